@@ -406,10 +406,10 @@ impl Monitor for C09 {
         let np = c09_pins().len() as u64;
         let mut v = split_chunks("pin", 0, np, np, 1);
         let n = match tier {
-            Tier::Quick => 20_000,
-            Tier::Thorough => 80_000,
+            Tier::Quick => 100_000,
+            Tier::Thorough => 600_000,
         };
-        v.extend(split_chunks("lit", seed_offset(seed, "C09", 80_000), n, 80_000, 400));
+        v.extend(split_chunks("lit", seed_offset(seed, "C09", 600_000), n, 600_000, 400));
         v
     }
     fn run_case(&self, kind: &str, idx: u64) -> CaseResult {
